@@ -1,5 +1,6 @@
 import QuillModel.Exit.Proofs
 import QuillModel.Exit.Program
+import QuillModel.Exit.StopProofs
 /-!
 # C07 — stopping, exiting or dying by a handled signal loses no completed statement  (PARTIAL)
 
@@ -146,7 +147,7 @@ theorem C07_reraise_off_returns (e : Env) (s : Sig) (hs : s.graceful = false) (p
     onSignal x = [.storeSignal, .setAlarm, .logNotice, .flush, .ret] ∧
     exec e s (onSignal x) false false f =
       ({ queue := [], written := f.written ++ f.queue ++ (if e.infoOn then [.notice] else []) }, .continues) := by
-  obtain ⟨run, info, crit, wait⟩ := e
+  obtain ⟨run, info, crit, wait, gu⟩ := e
   simp only at hrun
   subst hrun
   have h1 : onSignal ⟨s, true, pr, true, false, true, false⟩ = [.storeSignal, .setAlarm, .logNotice, .flush, .ret] := by
@@ -420,7 +421,7 @@ theorem C07_stop_writes_everything (ops : List POp) (hne : noExit ops = true)
   have hstop : (t.life.step R .stop).running = false := by
     simp only [Life.step, hx, Bool.false_eq_true, ↓reduceIte, stopBackendThread_spec t.life hinv]
     simp [R, LParams.repaired, Life.joinedAll]
-  simp only [Sys.run, List.foldl_cons, List.foldl_nil, Sys.step, hrun, hx]
+  simp only [Sys.run, List.foldl_cons, List.foldl_nil, Sys.step, hrun, hx, R_wait]
   refine ⟨by simp [Fe.drain], ?_, hstop⟩
   simpa [Fe.drain] using hc
 
@@ -443,7 +444,7 @@ theorem C07_exit_writes_everything (ops : List POp) (hne : noExit ops = true) :
   generalize Sys.run R {} ops = t at hc hx hexit
   obtain ⟨e1, e2, _, _, _, e6⟩ := hexit
   simp only [Life.run, List.foldl_cons, List.foldl_nil] at e1 e2 e6
-  simp only [Sys.run, List.foldl_cons, List.foldl_nil, Sys.step, hx, Bool.false_eq_true, ↓reduceIte]
+  simp only [Sys.run, List.foldl_cons, List.foldl_nil, Sys.step, hx, Bool.false_eq_true, ↓reduceIte, R_wait, Bool.true_or]
   refine ⟨by simp [Fe.drain], ?_, e1, e2, e6⟩
   simpa [Fe.drain] using hc
 
@@ -477,5 +478,311 @@ theorem C07_program_signal (ops : List POp) (hne : noExit ops = true) (thread : 
 
 example : noExit [.life .startSH, .log 0, .bg 1, .log 1] = true ∧
     (Sys.run R {} [.life .startSH, .log 0, .bg 1, .log 1]).life.ctxTid = 1 := by decide
+
+/-! ## `wait_for_queues_to_empty_before_exit` as a parameter -/
+
+/-- the signal half does not depend on the option: whatever `wait_for_queues_to_empty_before_exit` is, a handled signal
+    on a frontend thread leaves that thread's earlier statements and the notice(s) in the destination -/
+theorem C07_signal_independent_of_wait_option (e : Env) (wait : Bool) (s : Sig) (pr : Bool) (earlier : List Nat)
+    (w q : List Item) (hsplit : w ++ q = earlier.map Item.stmt) (hrun : e.backendRunning = true) :
+    exec { e with waitOnExit := wait } s (onSignal (Ctx.frontend s pr)) false false { queue := q, written := w } =
+      ({ queue := [], written := earlier.map Item.stmt ++ notices e s },
+       if s.graceful then .exit0 else .diedBy s) := by
+  have := C07_signal_loses_nothing { e with waitOnExit := wait } s pr earlier w q hsplit hrun
+  simpa [notices] using this
+
+example : exec { backendRunning := true, waitOnExit := false } .int (onSignal (Ctx.frontend .int false)) false false
+      { queue := [.stmt 1], written := [.stmt 0] } =
+    ({ queue := [], written := [.stmt 0, .stmt 1, .notice] }, .exit0) := by decide
+
+/-- **seeded change C07_m2 refuted**: a SIGINT/SIGTERM branch that goes to `exit` without `flush_log` relies on the
+    drain of the `atexit` stop — with the option off there is none: the thread's queued statement and the notice are
+    lost while the process exits successfully (with the option on the same call list loses nothing, which is why
+    the change is invisible under default options) -/
+theorem C07_neg_graceful_exit_without_flush :
+    exec { backendRunning := true, waitOnExit := false } .int [.storeSignal, .setAlarm, .logNotice, .exitSuccess] false false
+        { queue := [.stmt 1], written := [.stmt 0] } =
+      ({ queue := [.stmt 1, .notice], written := [.stmt 0] }, .exit0) ∧
+    exec { backendRunning := true, waitOnExit := true } .int [.storeSignal, .setAlarm, .logNotice, .exitSuccess] false false
+        { queue := [.stmt 1], written := [.stmt 0] } =
+      ({ queue := [], written := [.stmt 0, .stmt 1, .notice] }, .exit0) := by decide
+
+/-- the code with the option off -/
+abbrev RNoWait : LParams := { R with waitOnExit := false }
+
+/-- **what `stop` guarantees with the option off**: `_exit` reads no queue any more — the destination and the queue are
+    exactly what they were when the stop was requested (whatever the backend had written by then, `bg`), nothing is
+    lost from the queue, duplicated or reordered, and the backend is stopped -/
+theorem C07_nowait_stop_keeps_state (ops : List POp) (hne : noExit ops = true) :
+    let s0 := Sys.run RNoWait {} ops
+    let s := Sys.run RNoWait {} (ops ++ [.life .stop])
+    s.fe = s0.fe ∧ s.fe.written ++ s.fe.queue = logged ops := by
+  have hc := (Sys.conservation RNoWait ops {} rfl hne).1
+  simp only [Sys.run_append]
+  generalize Sys.run RNoWait {} ops = t at hc
+  refine ⟨?_, ?_⟩
+  · simp [Sys.run, Sys.step]
+  · simpa [Sys.run, Sys.step] using hc
+
+/-- … so with the option off `stop` may return with completed statements unwritten (they stay queued) -/
+theorem C07_nowait_stop_may_leave_unwritten :
+    (Sys.run RNoWait {} [.life .startSH, .log 0, .log 1, .bg 1, .life .stop]).fe = { queue := [.stmt 1], written := [.stmt 0] } ∧
+    (Sys.run R {} [.life .startSH, .log 0, .log 1, .bg 1, .life .stop]).fe = { queue := [], written := [.stmt 0, .stmt 1] } := by
+  decide
+
+/-- … a later `start` serves what was left, and conservation holds at every point of every program with the option off -/
+theorem C07_nowait_program_conservation (ops : List POp) (hne : noExit ops = true) :
+    (Sys.run RNoWait {} ops).fe.written ++ (Sys.run RNoWait {} ops).fe.queue = logged ops := by
+  have := (Sys.conservation RNoWait ops {} rfl hne).1
+  simpa using this
+
+example : (Sys.run RNoWait {} [.life .start, .log 0, .life .stop, .life .start, .bg 1]).fe = { queue := [], written := [.stmt 0] } := by
+  decide
+
+/-- normal exit with the option off: the final `_exit()` of `~ManualBackendWorker` runs with the options of the last
+    `start` and drains nothing; a process whose backend was never started has the default options and drains -/
+theorem C07_nowait_exit :
+    (Sys.run RNoWait {} [.life .start, .log 0, .life .exit]).fe = { queue := [.stmt 0], written := [] } ∧
+    (Sys.run RNoWait {} [.log 0, .life .exit]).fe = { queue := [], written := [.stmt 0] } := by decide
+
+/-! ## a handled signal while another thread is inside `Backend::stop()` / the `atexit` stop
+
+`stop()` as its real sequence of steps (`stopSeqCurrent`; `Obligations.exit_stop_sequence` ties it to the extracted
+order), the backend thread leaving in the background, the handler in two phases (A: reads the cached backend id;
+B: enqueues the notice(s) and the flush request) — any steps before A and between A and B (`Exit/Stop.lean`). -/
+
+/-- in every state any schedule can reach with the current order: the id the handler reads is set exactly until the
+    last step of `stop()`, so it is cleared only after the backend thread has ended; the stopping thread is past
+    `join()` only if the backend thread has ended; the backend stops looking at the queues only after the stop request -/
+theorem C07_stop_id_set_until_backend_gone (wait : Bool) (f : Fe) (evs : List Ev) :
+    let c := (CS.init f).run stopSeqCurrent wait evs
+    (c.idSet = true ↔ c.pc < 6) ∧ (c.idSet = false → c.ended = true) ∧ (3 ≤ c.pc → c.ended = true) ∧
+    (c.ended = true → c.serving = false) ∧ (c.serving = false → c.running = false) := by
+  exact CS.ok_facts _ (CS.ok_run wait evs _ (CS.ok_init f))
+
+example : ((CS.init {}).run stopSeqCurrent true [.stopper, .stopper, .bgLastCheck, .bgEnd, .stopper, .stopper]).pc = 4 := by decide
+
+/-- nothing is lost, duplicated or reordered by any interleaving of the three threads — in any order of the stop
+    sequence, with the option on or off: written ++ queued = what the thread had ++ what it completed since -/
+theorem C07_stop_interleaving_conservation (seq : List SStep) (wait : Bool) (f : Fe) (evs : List Ev) :
+    let c := (CS.init f).run seq wait evs
+    c.fe.written ++ c.fe.queue = f.written ++ f.queue ++ loggedEv evs :=
+  CS.run_conservation seq wait evs (CS.init f)
+
+/-- **signal inside `stop()`, served**: for every schedule before phase A (`pre`) and between A and B (`mid`), every
+    signal, every written/queued split, the option on or off: if `stop()` has not returned at A and the backend thread
+    has not yet taken its last look at the queues at B, the signalled thread's lines in the destination are all its
+    earlier statements (those before the stop and those completed during it) followed by the notice(s), nothing is
+    left queued, and the process dies by the signal (`exit(0)` for SIGINT/SIGTERM) -/
+theorem C07_signal_during_stop_served (wait info crit : Bool) (s : Sig) (pr : Bool) (earlier : List Nat) (w q : List Item)
+    (hsplit : w ++ q = earlier.map Item.stmt) (pre mid : List Ev) :
+    let a := (CS.init { queue := q, written := w }).run stopSeqCurrent wait pre
+    let b := a.run stopSeqCurrent wait mid
+    a.pc < 6 → b.serving = true →
+    signalDuringStop wait info crit s pr a b =
+      ({ queue := [], written := earlier.map Item.stmt ++ loggedEv (pre ++ mid) ++ notices { backendRunning := true, infoOn := info, critOn := crit } s },
+       if s.graceful then .exit0 else .diedBy s) := by
+  intro a b ha hb
+  have hid : a.idSet = true := (C07_stop_id_set_until_backend_gone wait _ pre).1.mpr ha
+  have hx : a.ctx s pr = Ctx.frontend s pr := by simp [CS.ctx, Ctx.frontend, hid]
+  have hc : b.fe.written ++ b.fe.queue = w ++ q ++ loggedEv (pre ++ mid) := by
+    have := CS.run_conservation stopSeqCurrent wait (pre ++ mid) (CS.init { queue := q, written := w })
+    rw [CS.run_append] at this
+    exact this
+  unfold signalDuringStop
+  rw [hx, exec_frontend _ s pr _ (by simpa using hb), hc, hsplit]
+  simp [notices]
+
+example : let a := (CS.init { queue := [.stmt 1], written := [.stmt 0] }).run stopSeqCurrent true [.stopper, .stopper, .bgWrite 1]
+    a.pc < 6 ∧ (a.run stopSeqCurrent true [.log 2]).serving = true := by decide
+
+/-- **FINDING F27 — the points the current code does not cover**: if `stop()` has not returned at A but the backend
+    thread has already taken its last look at the queues at B, the handler still takes the frontend branch, enqueues
+    its notice(s) and waits in `flush_log` for a backend thread that never looks again: the process hangs, the notice(s)
+    — and whatever the thread completed after that last look — stay queued -/
+theorem C07_signal_during_stop_after_last_look_hangs (wait info crit : Bool) (s : Sig) (pr : Bool) (f : Fe) (pre mid : List Ev) :
+    let a := (CS.init f).run stopSeqCurrent wait pre
+    let b := a.run stopSeqCurrent wait mid
+    a.pc < 6 → b.serving = false →
+    (signalDuringStop wait info crit s pr a b).2 = .hangs ∧
+    (signalDuringStop wait info crit s pr a b).1.written = b.fe.written := by
+  intro a b ha hb
+  have hid : a.idSet = true := (C07_stop_id_set_until_backend_gone wait _ pre).1.mpr ha
+  have hx : a.ctx s pr = Ctx.frontend s pr := by simp [CS.ctx, Ctx.frontend, hid]
+  unfold signalDuringStop
+  rw [hx, onSignal_frontend, hb]
+  cases hg : s.graceful <;> cases info <;> cases crit <;> simp [exec, Fe.log]
+
+/-- **exact characterisation** of the interleaving points: while `stop()` has not returned, the handler's outcome is the
+    one the property asks for if and only if the backend thread's last look at the queues comes after phase B -/
+theorem C07_signal_during_stop_exact (wait info crit : Bool) (s : Sig) (pr : Bool) (f : Fe) (pre mid : List Ev) :
+    let a := (CS.init f).run stopSeqCurrent wait pre
+    let b := a.run stopSeqCurrent wait mid
+    a.pc < 6 →
+    ((signalDuringStop wait info crit s pr a b).2 = (if s.graceful then .exit0 else .diedBy s) ↔ b.serving = true) := by
+  intro a b ha
+  cases hb : b.serving
+  · have := (C07_signal_during_stop_after_last_look_hangs wait info crit s pr f pre mid ha hb).1
+    rw [this]
+    cases hg : s.graceful <;> simp
+  · have hid : a.idSet = true := (C07_stop_id_set_until_backend_gone wait _ pre).1.mpr ha
+    have hx : a.ctx s pr = Ctx.frontend s pr := by simp [CS.ctx, Ctx.frontend, hid]
+    unfold signalDuringStop
+    rw [hx, exec_frontend _ s pr _ (by simpa using hb)]
+    simp
+
+/-- with the option on and the thread logging nothing during the stop, the window costs the notice and the ending only:
+    at the backend's last look the thread's queue was empty, so all its earlier statements are in the destination -/
+theorem C07_window_keeps_earlier_statements (earlier : List Nat) (w q : List Item) (hsplit : w ++ q = earlier.map Item.stmt)
+    (evs : List Ev) (hn : noLogEv evs = true) :
+    let b := (CS.init { queue := q, written := w }).run stopSeqCurrent true evs
+    b.serving = false → b.fe.queue = [] ∧ b.fe.written = earlier.map Item.stmt := by
+  intro b hb
+  have hq : b.fe.queue = [] := CS.run_queue_empty stopSeqCurrent evs _ hn (by intro h; cases h) hb
+  have hc := CS.run_conservation stopSeqCurrent true evs (CS.init { queue := q, written := w })
+  have hl : loggedEv evs = [] := by
+    clear hc hq hb b
+    induction evs with
+    | nil => rfl
+    | cons e evs ih =>
+      cases e <;> simp_all [noLogEv, loggedEv]
+  refine ⟨hq, ?_⟩
+  show ((CS.init { queue := q, written := w }).run stopSeqCurrent true evs).fe.written = _
+  have hq' : ((CS.init { queue := q, written := w }).run stopSeqCurrent true evs).fe.queue = [] := hq
+  rw [hq', hl] at hc
+  simpa [CS.init, hsplit] using hc
+
+/-- F27 witnesses on the current order. Option on: stop requested, the backend finds the queues empty and goes for its
+    final flush, SIGSEGV on the thread → hang, notices never written. Option off: the backend leaves with the thread's
+    statement still queued → that statement is lost as well. -/
+theorem C07_F27_signal_after_last_look :
+    (let a := (CS.init { queue := [], written := [.stmt 0] }).run stopSeqCurrent true [.stopper, .stopper, .bgLastCheck]
+     signalDuringStop true true true .segv false a a = ({ queue := [.notice, .critical], written := [.stmt 0] }, .hangs)) ∧
+    (let a := (CS.init { queue := [.stmt 1], written := [.stmt 0] }).run stopSeqCurrent false [.stopper, .bgLastCheck]
+     signalDuringStop false true true .segv false a a = ({ queue := [.stmt 1, .notice, .critical], written := [.stmt 0] }, .hangs)) := by
+  decide
+
+/-- the order of seeded change C07_m3: the id is cleared first -/
+def stopSeqIdFirst : List SStep := [.clearCtxId, .exchangeRunning, .notify, .join, .clearWorkerTid, .renewOnce]
+
+/-- **seeded change C07_m3 refuted**: with the id cleared before `stop_backend_thread()` the handler takes the
+    "no backend" branch while the backend thread is alive and draining — the process dies at once, the signalled
+    thread's queued statement never reaches the destination and there is no notice; on the current order the same
+    schedule, signal and split give the full outcome -/
+theorem C07_neg_id_cleared_before_stop :
+    (let a := (CS.init { queue := [.stmt 1], written := [.stmt 0] }).run stopSeqIdFirst true [.stopper, .stopper]
+     a.serving = true ∧ a.ended = false ∧
+     signalDuringStop true true true .segv false a a = ({ queue := [.stmt 1], written := [.stmt 0] }, .diedBy .segv)) ∧
+    (let a := (CS.init { queue := [.stmt 1], written := [.stmt 0] }).run stopSeqCurrent true [.stopper, .stopper]
+     signalDuringStop true true true .segv false a a =
+       ({ queue := [], written := [.stmt 0, .stmt 1, .notice, .critical] }, .diedBy .segv)) := by
+  decide
+
+/-! ### the candidate repair of F27 (`findings/F27_candidate_repair.diff`): the handler's wait ends when the backend thread is gone -/
+
+/-- the interleaving theorems above are about the code whose handler waits for ever (extracted: `flushEndsWhenBackendGone = false`; `Obligations.C07_signal_during_stop_extracted_flush`) -/
+theorem C07_stop_model_waits_for_ever (wait info crit : Bool) (s : Sig) (pr : Bool) (a b : CS) :
+    signalDuringStopG false wait info crit s pr a b = signalDuringStop wait info crit s pr a b := rfl
+
+/-- with the repair, at **every** interleaving point inside `stop()` the process ends the way the property asks for (by
+    the signal; `exit(0)` for SIGINT/SIGTERM) — no hang; before the backend's last look nothing changes; after it the
+    lines already in the destination stay and the notice(s) are what remains lost -/
+theorem C07_F27_repair_never_hangs (wait info crit : Bool) (s : Sig) (pr : Bool) (f : Fe) (pre mid : List Ev) :
+    let a := (CS.init f).run stopSeqCurrent wait pre
+    let b := a.run stopSeqCurrent wait mid
+    a.pc < 6 →
+    (signalDuringStopG true wait info crit s pr a b).2 = (if s.graceful then .exit0 else .diedBy s) ∧
+    (b.serving = true → signalDuringStopG true wait info crit s pr a b = signalDuringStop wait info crit s pr a b) ∧
+    (b.serving = false → (signalDuringStopG true wait info crit s pr a b).1.written = b.fe.written) := by
+  intro a b ha
+  have hid : a.idSet = true := (C07_stop_id_set_until_backend_gone wait _ pre).1.mpr ha
+  have hx : a.ctx s pr = Ctx.frontend s pr := by simp [CS.ctx, Ctx.frontend, hid]
+  cases hb : b.serving
+  · have hw : signalDuringStopG true wait info crit s pr a b =
+        (if s.graceful then ({ queue := b.fe.queue ++ notices { backendRunning := true, infoOn := info, critOn := crit } s, written := b.fe.written }, Outcome.exit0)
+         else ({ queue := b.fe.queue ++ notices { backendRunning := true, infoOn := info, critOn := crit } s, written := b.fe.written }, Outcome.diedBy s)) := by
+      unfold signalDuringStopG
+      rw [hx, onSignal_frontend, hb]
+      cases hg : s.graceful <;> cases info <;> cases crit <;> simp [exec, Fe.log, notices, hg]
+    refine ⟨?_, ?_, ?_⟩
+    · rw [hw]; cases hg : s.graceful <;> simp
+    · intro h; cases h
+    · intro _; rw [hw]; cases hg : s.graceful <;> simp
+  · have e1 : signalDuringStopG true wait info crit s pr a b = signalDuringStop wait info crit s pr a b := by
+      unfold signalDuringStopG signalDuringStop
+      rw [hx, exec_frontend _ s pr _ (by simpa using hb), exec_frontend _ s pr _ (by simpa using hb)]
+      simp [notices]
+    refine ⟨?_, ?_, ?_⟩
+    · rw [e1]
+      exact (C07_signal_during_stop_exact wait info crit s pr f pre mid ha).mpr hb
+    · intro _; exact e1
+    · intro h; cases h
+
+/-- the F27 witness under the repair: death by SIGSEGV instead of the hang; the notices stay queued -/
+example : (let a := (CS.init { queue := [], written := [.stmt 0] }).run stopSeqCurrent true [.stopper, .stopper, .bgLastCheck]
+    signalDuringStopG true true true true .segv false a a) = ({ queue := [.notice, .critical], written := [.stmt 0] }, .diedBy .segv) := by
+  decide
+
+/-! ## a process-directed signal with several threads: the outcome as a function of the receiving thread's class -/
+
+/-- **every class**: on a frontend thread — whether it has logged before or not — the handler enqueues the notice(s) on
+    that thread's own queue behind whatever that thread had queued, flushes, and the process ends by the signal
+    (`exit(0)` for SIGINT/SIGTERM); on the backend thread nothing is logged or flushed and the process ends at once -/
+theorem C07_kill_outcome_by_receiver (e : Env) (hrun : e.backendRunning = true) (s : Sig) (pr : Bool) (r : Receiver) (own : Fe) :
+    killOutcome e s pr r own =
+      match r with
+      | .backend => if s.graceful then (if e.waitOnExit then own.drain else own, .exit0) else (own, .diedBy s)
+      | _ => ({ queue := [], written := own.written ++ own.queue ++ notices e s }, if s.graceful then .exit0 else .diedBy s) := by
+  cases r with
+  | backend =>
+    have h := C07_backend_or_no_backend_outcome e (Receiver.ctx .backend s pr) own rfl (Or.inr rfl) rfl
+    simpa [killOutcome, Receiver.ctx, hrun] using h
+  | logged => exact exec_frontend e s pr own hrun
+  | neverLogged => exact exec_frontend e s pr own hrun
+
+example : killOutcome { backendRunning := true } .segv false .backend { queue := [.stmt 0], written := [] } =
+    ({ queue := [.stmt 0], written := [] }, .diedBy .segv) := by decide
+
+/-- **what the property promises**: if every thread that does not block the signal has logged before, then whichever of
+    them the kernel chooses, that thread's earlier statements are in the destination followed by the notice(s), nothing
+    of it stays queued, and the process dies by the signal (exits successfully for SIGINT/SIGTERM) -/
+theorem C07_kill_whichever_logged_thread (e : Env) (hrun : e.backendRunning = true) (s : Sig) (pr : Bool) (ts : List Thr)
+    (hall : ∀ t ∈ ts, t.blocked = false → t.cls = .logged) (r : Receiver) (hr : r ∈ candidates ts)
+    (earlier : List Nat) (w q : List Item) (hsplit : w ++ q = earlier.map Item.stmt) :
+    killOutcome e s pr r { queue := q, written := w } =
+      ({ queue := [], written := earlier.map Item.stmt ++ notices e s }, if s.graceful then .exit0 else .diedBy s) := by
+  have hl : r = .logged := by
+    simp only [candidates, List.mem_map, List.mem_filter, Bool.not_eq_true'] at hr
+    obtain ⟨t, ⟨ht, hb⟩, rfl⟩ := hr
+    exact hall t ht hb
+  subst hl
+  rw [C07_kill_outcome_by_receiver e hrun s pr .logged, hsplit]
+
+example : candidates [⟨.logged, false⟩, ⟨.backend, true⟩, ⟨.logged, false⟩, ⟨.neverLogged, true⟩] = [.logged, .logged] := by decide
+
+/-- a thread that never logged: the handler's first log call creates its context; the destination gets the notice(s)
+    and the process ends as for any frontend thread — nothing of that thread existed to be lost (outside the premise
+    "a thread that has logged before"; the creation of the queue inside the handler is not async-signal-safe, which the
+    model cannot show) -/
+theorem C07_kill_never_logged_thread (e : Env) (hrun : e.backendRunning = true) (s : Sig) (pr : Bool) :
+    killOutcome e s pr .neverLogged {} = ({ queue := [], written := notices e s }, if s.graceful then .exit0 else .diedBy s) := by
+  rw [C07_kill_outcome_by_receiver e hrun s pr .neverLogged]; simp
+
+/-- the backend thread inherits a mask with every signal blocked (order of `start` with the handler, extracted:
+    `shStartOrder`): as long as no user code on that thread unblocks it, the kernel never chooses it; and a signal
+    that every thread blocks is delivered to nobody (it stays pending) -/
+theorem C07_kill_candidates (ts : List Thr) :
+    ((∀ t ∈ ts, t.cls = .backend → t.blocked = true) → Receiver.backend ∉ candidates ts) ∧
+    ((∀ t ∈ ts, t.blocked = true) → candidates ts = []) := by
+  constructor
+  · intro h hm
+    simp only [candidates, List.mem_map, List.mem_filter, Bool.not_eq_true'] at hm
+    obtain ⟨t, ⟨ht, hb⟩, hc⟩ := hm
+    have := h t ht hc
+    rw [hb] at this; cases this
+  · intro h
+    simp only [candidates, List.map_eq_nil_iff, List.filter_eq_nil_iff, Bool.not_eq_true', Bool.not_eq_false]
+    intro t ht
+    simpa using h t ht
 
 end Exit
